@@ -506,7 +506,7 @@ func ghostSort(k string) string {
 	switch k {
 	case "lgK", "lgF", "lgI":
 		return "(Array Int Int)"
-	case "lgR", "lgE", "lgA", "lgB":
+	case "lgR", "lgE", "lgA", "lgB", "lgD":
 		return "(Array Int " + sortVal + ")"
 	}
 	return "Int"
